@@ -16,6 +16,14 @@ PROPS = {
         "not_decided": ["run.rs/scan.rs wiring, injected languages, ordering across files"],
         "assumptions": [],
     },
+    "C02": {
+        "units": [("align", r"match_node_impl|match_nodes_impl_recursive|may_match_ellipsis_impl|match_single_node_while_skip_trivial"), ("strictness", r"Aggregator>::match_terminal")],
+        "kani": [],
+        "decided": ["the last clause of the property -- code free of the `$` sigil matches itself: if the pattern tree mirrors the node (same kinds, same token text, same shape; what convert_node_to_pattern builds for a node without holes and without MISSING children) then match_node_impl answers MatchedBoth at EVERY strictness level, for every tree (unbounded; proved through the real mutually recursive alignment engine, relative to an aggregator that accepts tokens, which unit strictness proves for both aggregators)"],
+        "not_decided": ["patterns WITH holes ($VAR / $$$VAR replacing sub-expressions): needs the binding model of the aggregator threaded through the alignment (not built)",
+                        "that the pattern text parses to the same tree shape as the code (23 tree-sitter grammars behind FFI) and convert_node_to_pattern / extract_meta_var produce the mirror tree: outside both verifiers"],
+        "assumptions": ["T-node: children lists and token text as reported by tree-sitter"],
+    },
     "C03": {
         "units": [("strictness", r"^(?!<Cow as Aggregator>::match_meta_var)"), ("pattern", r"match_node_impl|match_node_non_recursive|get_match_len"), "align"],
         "kani": [],
@@ -161,7 +169,6 @@ PROPS = {
 }
 
 NOT_APPLICABLE = {
-    "C02": "needs two tree-sitter parses (23 C grammars behind FFI) to agree and total correctness of the Peekable alignment loop; no contract within reach of Verus/Kani expresses it (DESIGN 4.C02)",
     "C09": "equality of the outputs of five front-end programs and an LSP notification history (async tower-lsp + DashMap): outside both verifiers (DESIGN 4.C09)",
     "C17": "thread schedules of the walker/printer: Kani has no threads, Verus would need the code rewritten into its permission types (DESIGN 4.C17)",
 }
